@@ -291,7 +291,199 @@ theorem parseFs_steps (K : Consts) (ts : TypeSystem) (tsIdx : Nat) (s : RState) 
   dsimp only
   rw [hres]
   dsimp only
-  unfold convStep at hconv
+  show (match convStep ts s.cas t heap1 s.heap.length with
+    | .error e => (Except.error e : Except Err RState)
+    | .ok heap => Except.ok { s with heap := heap, fss := setFs s.fss x (.ref s.heap.length), deferred := ds, maxId := max s.maxId x }) = _
   rw [hconv]
+
+/-! ### references -/
+
+def setObj (oc : Obj) (k : String) (v : Val) : Obj := { oc with slots := alistSet oc.slots k v }
+
+theorem get_last {α} (pre : List α) (x : α) : (pre ++ [x])[pre.length]? = some x := by simp
+
+theorem set_last {α} (pre : List α) (x y : α) : (pre ++ [x]).set pre.length y = pre ++ [y] := by simp
+
+theorem setSlot_last (pre : Heap) (oc : Obj) (k : String) (v w : Val) (h : alistGet? oc.slots k = some w) :
+    Heap.setSlot (pre ++ [oc]) pre.length k v = .ok (pre ++ [setObj oc k v]) := by
+  rw [setSlot_existing v (get_last pre oc) h, set_last]
+  rfl
+
+/-- the object after the references of the features `fs` have been looked up -/
+def resObj (fss : List (Int × Val)) (tgt : Feature → Option Int) : List Feature → Obj → Obj
+  | [], oc => oc
+  | f :: fs, oc =>
+    resObj fss tgt fs (match (tgt f).bind (lookup fss) with
+      | some tv => setObj oc f.name tv
+      | none => oc)
+
+/-- the references of the features `fs` whose targets are not yet known -/
+def resDef (fss : List (Int × Val)) (tgt : Feature → Option Int) (addr : Nat) : List Feature → List Deferred
+  | [] => []
+  | f :: fs =>
+    (match tgt f with
+     | some y =>
+       match lookup fss y with
+       | some _ => []
+       | none => [{ addr := addr, slot := f.name, target := some y, elems := none }]
+     | none => []) ++ resDef fss tgt addr fs
+
+def refMem (tgt : Feature → Option Int) (f : Feature) : List (String × JV) :=
+  match tgt f with
+  | some y => [("@" ++ f.name, .int y)]
+  | none => []
+
+theorem setObj_keys (oc : Obj) (k : String) (v : Val) (h : k ∈ oc.slots.map (·.1)) :
+    (setObj oc k v).slots.map (·.1) = oc.slots.map (·.1) := aset_keys _ _ _ h
+
+theorem resolveRefs_flat (fss : List (Int × Val)) (tgt : Feature → Option Int) (pre : Heap) :
+    ∀ (fs : List Feature) (oc : Obj) (ds : List Deferred),
+      (∀ f ∈ fs, f.name ≠ "self" ∧ f.name ≠ "type" ∧ f.name ∈ oc.slots.map (·.1)) →
+      resolveRefs renameReserved fss pre.length (fs.flatMap (refMem tgt)) (pre ++ [oc], ds) =
+        .ok (pre ++ [resObj fss tgt fs oc], ds ++ resDef fss tgt pre.length fs)
+  | [], oc, ds, _ => by
+    simp [resolveRefs, resObj, resDef]
+  | f :: fs, oc, ds, h => by
+    obtain ⟨h1, h2, h3⟩ := h f List.mem_cons_self
+    have hrest : ∀ oc' : Obj, oc'.slots.map (·.1) = oc.slots.map (·.1) →
+        ∀ g ∈ fs, g.name ≠ "self" ∧ g.name ≠ "type" ∧ g.name ∈ oc'.slots.map (·.1) := by
+      intro oc' hk g hg
+      obtain ⟨g1, g2, g3⟩ := h g (List.mem_cons_of_mem _ hg)
+      exact ⟨g1, g2, by rw [hk]; exact g3⟩
+    rw [List.flatMap_cons]
+    unfold refMem resObj resDef
+    cases ht : tgt f with
+    | none =>
+      dsimp only
+      rw [List.nil_append, List.nil_append]
+      have := resolveRefs_flat fss tgt pre fs oc ds (hrest oc rfl)
+      unfold refMem at this
+      rw [this]
+      rfl
+    | some y =>
+      dsimp only
+      rw [List.cons_append, List.nil_append]
+      unfold resolveRefs
+      dsimp only
+      rw [drop1_at, renameReserved_id h1 h2]
+      cases hl : lookup fss y with
+      | some tv =>
+        dsimp only [Option.bind_some]
+        rw [hl]
+        dsimp only
+        obtain ⟨w, hw⟩ := Option.isSome_iff_exists.mp ((aget_isSome_iff oc.slots f.name).mpr h3)
+        rw [setSlot_last pre oc f.name tv w hw]
+        dsimp only
+        have := resolveRefs_flat fss tgt pre fs (setObj oc f.name tv) ds (hrest _ (setObj_keys oc f.name tv h3))
+        unfold refMem at this
+        rw [this, List.nil_append]
+      | none =>
+        dsimp only [Option.bind_some]
+        rw [hl]
+        dsimp only
+        have := resolveRefs_flat fss tgt pre fs oc (ds ++ [{ addr := pre.length, slot := f.name, target := some y, elems := none }]) (hrest oc rfl)
+        unfold refMem at this
+        rw [this, List.append_assoc]
+
+section
+variable (fss : List (Int × Val)) (tgt : Feature → Option Int)
+
+theorem resObj_fields : ∀ (fs : List Feature) (oc : Obj),
+    (resObj fss tgt fs oc).ty = oc.ty ∧ (resObj fss tgt fs oc).xid = oc.xid ∧ (resObj fss tgt fs oc).ts = oc.ts
+  | [], _ => ⟨rfl, rfl, rfl⟩
+  | f :: fs, oc => by
+    unfold resObj
+    cases (tgt f).bind (lookup fss) with
+    | none => exact resObj_fields fs oc
+    | some tv => exact resObj_fields fs (setObj oc f.name tv)
+
+theorem resObj_keys : ∀ (fs : List Feature) (oc : Obj), (∀ f ∈ fs, f.name ∈ oc.slots.map (·.1)) →
+    (resObj fss tgt fs oc).slots.map (·.1) = oc.slots.map (·.1)
+  | [], _, _ => rfl
+  | f :: fs, oc, h => by
+    unfold resObj
+    cases (tgt f).bind (lookup fss) with
+    | none => exact resObj_keys fs oc (fun g hg => h g (List.mem_cons_of_mem _ hg))
+    | some tv =>
+      dsimp only
+      have hk := setObj_keys oc f.name tv (h f List.mem_cons_self)
+      rw [resObj_keys fs (setObj oc f.name tv) (fun g hg => by rw [hk]; exact h g (List.mem_cons_of_mem _ hg)), hk]
+
+theorem resObj_other (n : String) : ∀ (fs : List Feature) (oc : Obj), n ∉ fs.map (·.name) →
+    alistGet? (resObj fss tgt fs oc).slots n = alistGet? oc.slots n
+  | [], _, _ => rfl
+  | f :: fs, oc, h => by
+    rw [List.map_cons, List.mem_cons, not_or] at h
+    unfold resObj
+    cases (tgt f).bind (lookup fss) with
+    | none => exact resObj_other n fs oc h.2
+    | some tv =>
+      dsimp only
+      rw [resObj_other n fs _ h.2]
+      exact alistGet?_set_other _ _ _ _ h.1
+
+theorem resObj_at : ∀ (fs : List Feature) (oc : Obj), (fs.map (·.name)).Nodup → ∀ f ∈ fs,
+    alistGet? (resObj fss tgt fs oc).slots f.name =
+      match (tgt f).bind (lookup fss) with
+      | some tv => some tv
+      | none => alistGet? oc.slots f.name
+  | [], _, _, f, hf => by cases hf
+  | g :: fs, oc, hnd, f, hf => by
+    rw [List.map_cons, List.nodup_cons] at hnd
+    rcases List.mem_cons.mp hf with rfl | hf'
+    · unfold resObj
+      rw [resObj_other fss tgt f.name fs _ hnd.1]
+      cases (tgt f).bind (lookup fss) with
+      | none => rfl
+      | some tv => exact alistGet?_set_same _ _ _
+    · have hne : f.name ≠ g.name := by
+        intro e
+        apply hnd.1
+        rw [← e]
+        exact List.mem_map_of_mem hf'
+      unfold resObj
+      rw [resObj_at fs _ hnd.2 f hf']
+      cases (tgt f).bind (lookup fss) with
+      | some tv => rfl
+      | none =>
+        dsimp only
+        cases (tgt g).bind (lookup fss) with
+        | none => rfl
+        | some tv' => exact alistGet?_set_other _ _ _ _ hne
+
+theorem resDef_mem (addr : Nat) : ∀ (fs : List Feature), ∀ f ∈ fs, ∀ y, tgt f = some y → lookup fss y = none →
+    ({ addr := addr, slot := f.name, target := some y, elems := none } : Deferred) ∈ resDef fss tgt addr fs
+  | [], f, hf, _, _, _ => by cases hf
+  | g :: fs, f, hf, y, ht, hl => by
+    unfold resDef
+    rcases List.mem_cons.mp hf with rfl | hf'
+    · rw [ht]
+      dsimp only
+      rw [hl]
+      exact List.mem_append_left _ List.mem_cons_self
+    · exact List.mem_append_right _ (resDef_mem addr fs f hf' y ht hl)
+
+theorem resDef_sound (addr : Nat) : ∀ (fs : List Feature), ∀ d ∈ resDef fss tgt addr fs,
+    ∃ f ∈ fs, ∃ y, tgt f = some y ∧ lookup fss y = none ∧
+      d = { addr := addr, slot := f.name, target := some y, elems := none }
+  | [], d, hd => by cases hd
+  | g :: fs, d, hd => by
+    unfold resDef at hd
+    rcases List.mem_append.mp hd with hd | hd
+    · cases ht : tgt g with
+      | none => rw [ht] at hd; cases hd
+      | some y =>
+        rw [ht] at hd
+        dsimp only at hd
+        cases hl : lookup fss y with
+        | some tv => rw [hl] at hd; cases hd
+        | none =>
+          rw [hl] at hd
+          rw [List.mem_singleton] at hd
+          exact ⟨g, List.mem_cons_self, y, ht, hl, hd⟩
+    · obtain ⟨f, hf, y, h1, h2, h3⟩ := resDef_sound addr fs d hd
+      exact ⟨f, List.mem_cons_of_mem _ hf, y, h1, h2, h3⟩
+
+end
 
 end Cassis.Json
